@@ -8,6 +8,9 @@ import ganzhi as G
 
 
 def run(ctx):
+    from rules import shared
+    ctx.include('month_records', shared.month_records)   # leap table, solstice anchor, month memo, memo cells (shared, cached per source hash)
+    ctx.include('jd_tables', shared.jd_tables)           # civil date <-> day number per (year, month) (shared, cached per source hash)
     p = ctx.prog
     I = ctx.interp(fuel=100000000)
     t = T(I)
@@ -58,10 +61,6 @@ def run(ctx):
           'the pillar is the same via the lunar date, the sexagenary-day view, the instant view and the civil date, and advances by one per civil day across lunar month ends, year ends and the 1582 cut-over; same for the weekday',
           lambda x: '%d-%02d-%02d' % CAL.from_jdn(x[1]), fn_site(p, 'SixtyCycleDay::from_solar_day'))
 
-    # ---- the civil date -> day number link itself (same tables as C01): the pillar of a civil date is only as right as its day number
-    from rules.c01 import jd_month_tables, affine_in_day
-    affine_in_day(ctx)
-    jd_month_tables(ctx, [(y, m) for y in range(1, 10000) for m in range(1, 13)])
     ctx.assumptions.append('inside the scenario evaluation the civil date <-> day number layer is the calendar oracle; that layer itself is decided by the per-month Julian-day tables above')
     ctx.not_decided.append('that the first day of month k+1 is the first day of month k plus its length on the REAL lunar calendar (C03 numerics); the scenario calendars tile by construction')
     return ('pillar and weekday anchors as residue-class tables; every public route to the day pillar / weekday evaluated for ~480 consecutive days on scenario calendars incl. the 1582 cut-over')
